@@ -142,6 +142,19 @@ func (api *API) mapDecodeBasedOnType(ctx context.Context, mapVal any, value refl
 		}
 
 	case reflect.Struct:
+		// a uint256 number that is held as a big.Int value (see encodeBasedOnType)
+		if valueType == bigIntPtrType.Elem() {
+			decodedBigInt := reflect.New(bigIntPtrType).Elem()
+			if err := api.mapDecodeBasedOnType(ctx, mapVal, decodedBigInt, bigIntPtrType, ts, opts); err != nil {
+				return err
+			}
+			if !decodedBigInt.IsNil() {
+				value.Set(decodedBigInt.Elem())
+			}
+
+			return nil
+		}
+
 		if contextAwareDeserializable, ok := value.Interface().(ContextAwareDeserializable); ok {
 			contextAwareDeserializable.SetDeserializationContext(ctx)
 		}
